@@ -9,7 +9,7 @@ is decided by the TLA+ definition, never here.
 import random
 
 CTRL_ALL = [chr(c) for c in range(32)] + ['\x7f']
-CTRL_QUICK = ['\x00', '\x07', '\t', '\n', '\r', '\x0e', '\x1b', '\x1f', '\x7f']
+CTRL_QUICK = ['\x00', '\x01', '\x06', '\x11', '\x17', '\x07', '\t', '\n', '\r', '\x0e', '\x1b', '\x1f', '\x7f']
 CHARSET_EDGE = ['a', 'z', '^', '`', '~', '#', '$', '%', '@', '_', '{', '|', '<', '\\', '"', "'", '!', '&', '=', '*', ':', '/']
 CHARSET_EDGE_QUICK = ['a', '^', '`', '~', '#', '"', '\\', '*']
 NONASCII = ['\xe9', '\xa0', '\x85', '€']
